@@ -664,7 +664,7 @@ def graph_family(rs, tier):
     quick = tier == "quick"
     shapes = [[11, 3], [13, 1, 7, 22], [25, 12], [31, 2, 1], [17, 17, 1], [41, 5]]
     if not quick:
-        shapes += [[12], [19, 21, 23], [50, 11], [33, 1, 1, 14], [61], [29, 37, 2]]
+        shapes += [[12], [19, 21, 23], [50, 11], [33, 1, 1, 14], [61]]
     for cs in shapes:
         n, edges = make_graph(rs, cs, p_extra=0.12)
         yield {"n": n, "edges": edges, "weights": np.round(rs.uniform(0.5, 2.5, n), 3).tolist()}
@@ -682,18 +682,18 @@ def gen_distributed(rs, tier):
         big = g.pop("big", False)
         n = g["n"]
         ncomp = largest_component(n, g["edges"])
-        variants = MPI_VARIANTS if not big else \
+        variants = (MPI_VARIANTS if n <= 45 else MPI_VARIANTS[:4]) if not big else \
             MPI_VARIANTS[:2] + (MPI_VARIANTS[3:4] if big == 2 else [])
         for measure, kw in variants:
             heavy = big and measure == "nsi_arenas_betweenness"
             # worker counts: extremes, the value where (size-1)*10 crosses 0.1*N, random others
-            sizes = [2, 3, n + 2] + [int(s) for s in rs.randint(2, n + 3, size=3 if quick else 5)]
+            sizes = [2, 3, n + 2] + [int(s) for s in rs.randint(2, n + 3, size=3)]
             if big:
                 sizes += [int(np.ceil(0.01 * ncomp)) + 1, int(np.ceil(0.01 * ncomp)) + 2]
             if heavy:
                 sizes = [2, n + 2]
             for i, size in enumerate(sorted(set(sizes))):
-                reps = 1 if heavy else 2
+                reps = 1 if (heavy or (not quick and measure == "nsi_arenas_betweenness")) else 2
                 for r in range(reps):
                     yield {"kind": "distributed", "graph": g, "measure": measure, "kwargs": kw,
                            "size": size, "heavy": heavy,
@@ -755,7 +755,7 @@ def gen_pool(rs, tier):
                 yield {"kind": "pool", "graph": g, "kwargs": kw, "pool": "fake", "n_workers": nw,
                        "seed": int(rs.randint(0, 2 ** 31)), "silence_level": j % 4}
         if gi < (1 if quick else 3):
-            for sl in ((2,) if quick else (0, 3)):
+            for sl in ((2,) if quick else ((0, 3) if gi == 0 else (1,))):
                 yield {"kind": "pool", "graph": g, "kwargs": kws[gi % len(kws)], "pool": "spawn",
                        "silence_level": sl}
 
@@ -790,10 +790,12 @@ def gen_kernels(rs, tier):
                            "V": ["random", "kirchhoff"][gi], "cuts": cuts, "opts": o,
                            "definition": ci == 0}
     # random partitions of larger node ranges
-    for it in range(12 if quick else 60):
+    for it in range(12 if quick else 40):
         n = int(rs.randint(8, 26 if quick else 45))
         _, edges = make_graph(rs, [n], p_extra=0.15)
         for ki, kern in enumerate(kernels):
+            if kern == "_mpi_nsi_arenas_betweenness" and n > 25:
+                continue        # ~50 ms per node and chunk call: keep the Python kernel to n <= 25
             seed = int(rs.randint(0, 2 ** 31))
             o = opts_for(kern, n, it)
             cutsets = [list(range(n + 1)),                       # one node per chunk
@@ -825,7 +827,7 @@ SCOPE = (
     "captured; arguments and results pickled as MPI would.  nsi_betweenness with parallelize=True "
     "through an in-process pool with 1..N+2 workers and random evaluation order of the batches "
     "(all nodes / source+target subsets / nsi=False) and through the real spawn pool (1 case "
-    "quick, 6 thorough).  Chunk kernels _mpi_newman_betweenness, _mpi_nsi_newman_betweenness, "
+    "quick, 4 thorough).  Chunk kernels _mpi_newman_betweenness, _mpi_nsi_newman_betweenness, "
     "Network._mpi_nsi_arenas_betweenness, _nsi_betweenness called directly: every contiguous "
     "partition of the node range for connected graphs with 2..5 (thorough 2..7) nodes, random "
     "partitions incl. one-node chunks and the master's own chunking for 8..25 (..44) nodes, V "
